@@ -3,7 +3,8 @@
    Part 2: shape of the merge command's program (which boundaries may precede which effects).
    Part 3: what main_merge computes (symbolic execution of the fault-free run) and the property theorems. *)
 From Coq Require Import List NArith Bool Arith Lia.
-From NB Require Import Gen.MergeAppFacts Sys.MergeApp.
+From NB Require Import Gen.MergeAppFacts.
+From NB Require Import Sys.MergeApp.
 Import ListNotations.
 
 (* ================================================================ Part 1: interpreter *)
